@@ -19,6 +19,7 @@ inductive Mode
   | frame (st : FrameSt)
   | conn (run : ConnRun)
   | gates
+  | bulk
   | pair (st : PairSt)
   | tables (name : String)
   | codec (st : CodecSt)
@@ -36,6 +37,7 @@ partial def loop (h : IO.FS.Stream) (ln : Nat) (m : Mode) (r : Report) : IO Repo
       | none => loop h (ln + 1) .none (r.mdiff "parse" s!"line {ln}: bad trace header `{line}`")
     | _ :: "pair" :: rest => loop h (ln + 1) (.pair (pairStart rest)) { r with traces := r.traces + 1 }
     | _ :: "gates" :: _ => loop h (ln + 1) .gates { r with traces := r.traces + 1 }
+    | _ :: "bulk" :: _ => loop h (ln + 1) .bulk { r with traces := r.traces + 1 }
     | _ :: "conn" :: rest =>
       match connStart rest with
       | some cs => loop h (ln + 1) (.conn { cs := cs }) { r with traces := r.traces + 1 }
@@ -67,6 +69,10 @@ partial def loop (h : IO.FS.Stream) (ln : Nat) (m : Mode) (r : Report) : IO Repo
     | .gates =>
       if line = "END" then loop h (ln + 1) .none r
       else loop h (ln + 1) m (gatesLine ln line r)
+    | .bulk =>
+      if line = "END" then loop h (ln + 1) .none r
+      else if line.startsWith "K " then loop h (ln + 1) m (bulkLine ln (line.drop 2).toString r)
+      else loop h (ln + 1) m (r.mdiff "parse" s!"line {ln}: unexpected `{line.take 60}`")
     | .conn run =>
       if line = "END" then loop h (ln + 1) .none r
       else if line.startsWith "X " then
